@@ -11,18 +11,23 @@ Vocabulary (Model/Clone.lean, Proofs/Clone*.lean):
                             region `R` leads out of it
   `rng h h'`, `Sn h`        the block of locations allocated between `h` and `h'` / from `h` on
   `NotBlock h h'`           everything else
-  `run k ops`               the store after the edit sequence `ops` (any of the 20 operations of `Op`:
+  `run k ops`               the store after the edit sequence `ops` (any of the 22 operations of `Op`:
                             value edits, in-place edits of lists held by the caller and of their inner
                             lists, renames, attribute / cardinality / dtype changes, new objects, append,
-                            remove, new ids, further clones and exports)
+                            remove, new ids, further clones and exports, merge / unmerge of a Section with
+                            one that has no children)
   `OpsIn R ops`             every operation of `ops` is applied to objects / lists of `R`
   `Scoped h`                no dangling references in `h`
   `WF h`                    `Scoped h` and well-typed child lists / parents; holds in every store built by `run`
   `absTree h n x`           the pure tree below `x` to depth `n` (content, no ids, no handles); `idTree`: with ids
   `chainSpec h x`           the tree `export_leaf` has to return, computed from the store by walking `parent`
+  `h.dcell d`, `(h.node x).mattrs`, `recOf h x`   the dicts `_merged_attrs` by address, the address a Section
+                            holds, what its record holds; `DScoped h`: every record address is allocated
+  `mergeAttrs` / `unmergeAttrs`   the statements of `Section._merge` / `unmerge` on the Section's own
+                            definition / reference and on the record (merged Section without children)
 All theorems hold for every store, object, flag combination and edit sequence: no bound on sizes.
 -/
-import OdmlModel.Proofs.CloneChain
+import OdmlModel.Proofs.CloneRecord
 namespace C11
 open Clone
 
@@ -558,5 +563,221 @@ theorem clone_inherits_nothing_template :
     inherited (clone hRepo 2 true true).1 5 4 repoAttr = some "'Q'" := by
   refine ⟨run_empty_wf _, by decide, by decide, by decide, by decide, by decide, by decide, by decide,
     by decide⟩
+
+/-! ### Hidden state a copy shares with its original: the record of a merge (`_merged_attrs`)
+
+`clone()` is `copy.copy`: the copy of a Section holds the ADDRESS of the dict in which `merge` has noted the
+definition / reference it filled in from the merged Section (`Node.mattrs` into the address space `dcell`).
+Until one of the two binds another dict they share it. The code relies on every write being a binding
+(`self._merged_attrs = filled` of a new `dict(...)`, `self._merged_attrs = {}`); the theorems below state
+that, and what follows from it for copy and original. -/
+
+/-- The frame lemma of the dicts, for every store, every operation list with any arguments: a dict that
+    exists is never written (all 22 operations, merge and unmerge included: every write binds a new
+    dict), and dicts are only added. -/
+theorem record_dicts_never_written (h : H) (ops : List Op) :
+    h.nD ≤ (run h ops).nD ∧ ∀ d, d < h.nD → (run h ops).dcell d = h.dcell d :=
+  ⟨(run_dframe ops h).mono, (run_dframe ops h).same⟩
+
+/-- What the operations other than `Section(…)`, merge and unmerge do to the dicts: nothing. In
+    particular `clone` (whatever the outcome) makes no dict. -/
+theorem clone_makes_no_dict (h : H) (x : Nat) (children keep : Bool) :
+    (clone h x children keep).1.dcell = h.dcell ∧ (clone h x children keep).1.nD = h.nD :=
+  ⟨(dsame_clone h x children keep).dcell, (dsame_clone h x children keep).nD⟩
+
+/-- The copy SHARES the record with the original: it holds the same address, so it is equal to the
+    original in this piece of state as well (`recOf`), and the dict is the very same one. -/
+theorem clone_shares_record {h h' : H} {x c : Nat} {children keep : Bool}
+    (hc : clone h x children keep = (h', .ok c)) :
+    (h'.node c).mattrs = (h.node x).mattrs ∧ h'.dcell = h.dcell ∧ h'.nD = h.nD ∧ recOf h' c = recOf h x := by
+  have r := cloneF_fields _ h x children keep h' c (dropOnErr_ok hc)
+  have d := dsame_clone h x children keep
+  rw [hc] at d
+  exact ⟨r.mattrs, d.dcell, d.nD, by unfold recOf; rw [r.mattrs, d.dcell]⟩
+
+/-- No edit sequence applied to the copy - merge, unmerge, attribute edits, further clones, anything of
+    `Op` - changes what the record of the original holds, nor that of any other object that existed when
+    the copy was made: although copy and original share the dict, every write on the copy's side binds a
+    new one. `DScoped h`: the record addresses of `h` are allocated (holds in every reachable store). -/
+theorem edit_copy_preserves_original_record {h h' : H} {x c : Nat} {children keep : Bool} (ds : DScoped h)
+    (hc : clone h x children keep = (h', .ok c)) (ops : List Op) (ho : OpsIn (Sn h) ops) (a : Nat)
+    (ha : a < h.nN) :
+    recOf (run h' ops) a = recOf h a ∧ ((run h' ops).node a).mattrs = (h.node a).mattrs := by
+  have b := edit_copy_preserves_original hc ops ho
+  have e : Ext h h' := by have := clone_writes_only_new h x children keep; rwa [hc] at this
+  obtain ⟨_, hd, hD, _⟩ := clone_shares_record hc
+  have hn : (run h' ops).node a = h'.node a := by rw [b.1 a ha, e.2.1 a ha]
+  have hm : (h'.node a).mattrs < h'.nD := by rw [e.2.1 a ha, hD]; exact ds.2 a
+  refine ⟨?_, by rw [b.1 a ha]⟩
+  rw [recOf_run ops a hm hn]
+  unfold recOf
+  rw [e.2.1 a ha, hd]
+
+/-- ... and vice versa: no edit sequence applied to the original (or to anything that is not part of the
+    copy) changes what the record of the copy - of any object of the copy - holds; the root of the copy
+    keeps the record the original had when it was cloned. -/
+theorem edit_original_preserves_copy_record {h h' : H} {x c : Nat} {children keep : Bool} (sc : Scoped h)
+    (ds : DScoped h) (hc : clone h x children keep = (h', .ok c)) (ops : List Op)
+    (ho : OpsIn (NotBlock h h') ops) :
+    (∀ a, h.nN ≤ a → a < h'.nN → recOf (run h' ops) a = recOf h' a) ∧ recOf (run h' ops) c = recOf h x := by
+  have bs := edit_original_preserves_copy sc hc ops ho
+  have d := dsame_clone h x children keep
+  rw [hc] at d
+  have ds' : DScoped h' := d.frame.scoped ds
+  have all : ∀ a, h.nN ≤ a → a < h'.nN → recOf (run h' ops) a = recOf h' a :=
+    fun a h1 h2 => recOf_run ops a (ds'.2 a) (bs.1 a h1 h2)
+  obtain ⟨c1, c2, _, _⟩ := clone_detached_new hc
+  exact ⟨all, by rw [all c c1 c2, (clone_shares_record hc).2.2.2]⟩
+
+/-- Both directions for every reachable store, no hypothesis left: build any store (`ops₀`, merges and
+    unmerges included), clone any object; afterwards ANY operation list on the copy's side leaves the
+    record of every object that existed as it was, and ANY operation list on the original's side leaves the
+    record of every object of the copy as it was. -/
+theorem record_independent_reachable (ops₀ : List Op) {h' : H} {x c : Nat} {children keep : Bool}
+    (hc : clone (run empty ops₀) x children keep = (h', .ok c)) (ops : List Op) :
+    (OpsIn (Sn (run empty ops₀)) ops → ∀ a, a < (run empty ops₀).nN →
+      recOf (run h' ops) a = recOf (run empty ops₀) a) ∧
+    (OpsIn (NotBlock (run empty ops₀) h') ops →
+      (∀ a, (run empty ops₀).nN ≤ a → a < h'.nN → recOf (run h' ops) a = recOf h' a) ∧
+      recOf (run h' ops) c = recOf (run empty ops₀) x) :=
+  ⟨fun ho a ha => (edit_copy_preserves_original_record (run_empty_dscoped ops₀) hc ops ho a ha).1,
+   fun ho => edit_original_preserves_copy_record (run_empty_scoped ops₀) (run_empty_dscoped ops₀) hc ops ho⟩
+
+/-- Independence over the rest of the history (the counterfactual reading): what `unmerge` / `clean` later
+    does to the attributes of the original is the same whether or not the copy was edited in between - the
+    attributes the original has afterwards are those it had at clone time with what ITS record held then
+    taken back (`takeBackL`), whatever was done to the copy. -/
+theorem unmerge_original_unaffected_by_copy_edits {h h' : H} {x c : Nat} {children keep : Bool} (ds : DScoped h)
+    (hc : clone h x children keep = (h', .ok c)) (ops : List Op) (ho : OpsIn (Sn h) ops) (a : Nat) (ha : a < h.nN) :
+    ((unmergeAttrs (run h' ops) a).node a).attrs = ((unmergeAttrs h a).node a).attrs := by
+  rw [unmergeAttrs_attrs, unmergeAttrs_attrs, (edit_copy_preserves_original_record ds hc ops ho a ha).1,
+    (edit_copy_preserves_original hc ops ho).1 a ha]
+
+/-- ... and what `unmerge` later does to the copy does not depend on what was done to the original. -/
+theorem unmerge_copy_unaffected_by_original_edits {h h' : H} {x c : Nat} {children keep : Bool} (sc : Scoped h)
+    (ds : DScoped h) (hc : clone h x children keep = (h', .ok c)) (ops : List Op) (ho : OpsIn (NotBlock h h') ops) :
+    ((unmergeAttrs (run h' ops) c).node c).attrs = ((unmergeAttrs h' c).node c).attrs := by
+  obtain ⟨c1, c2, _, _⟩ := clone_detached_new hc
+  rw [unmergeAttrs_attrs, unmergeAttrs_attrs, (edit_original_preserves_copy_record sc ds hc ops ho).1 c c1 c2,
+    (edit_original_preserves_copy sc hc ops ho).1 c c1 c2]
+
+/-- The same for `merge`: the attributes and the record a later (recorded) merge of the original with any
+    Section `s` of the original's side leaves on the original are the same whether or not the copy was
+    edited in between (both are `fillL` / `fillR` of the two attribute lists and of the original's record,
+    none of which an edit of the copy changes). -/
+theorem merge_original_unaffected_by_copy_edits {h h' : H} {x c : Nat} {children keep : Bool} (ds : DScoped h)
+    (hc : clone h x children keep = (h', .ok c)) (ops : List Op) (ho : OpsIn (Sn h) ops) (a s : Nat)
+    (ha : a < h.nN) (hs : s < h.nN) (hne : s ≠ a) :
+    ((mergeAttrs (run h' ops) a s true).node a).attrs = ((mergeAttrs h a s true).node a).attrs ∧
+    recOf (mergeAttrs (run h' ops) a s true) a = recOf (mergeAttrs h a s true) a := by
+  obtain ⟨p1, p2⟩ := mergeAttrs_spec (run h' ops) a s hne
+  obtain ⟨q1, q2⟩ := mergeAttrs_spec h a s hne
+  have b := edit_copy_preserves_original hc ops ho
+  rw [p1, p2, q1, q2, (edit_copy_preserves_original_record ds hc ops ho a ha).1, b.1 a ha, b.1 s hs]
+  exact ⟨rfl, rfl⟩
+
+/-- ... and a later merge of the copy (with any Section that is not part of the original's side being
+    edited: here one of the copy's block) does not depend on edits of the original. -/
+theorem merge_copy_unaffected_by_original_edits {h h' : H} {x c : Nat} {children keep : Bool} (sc : Scoped h)
+    (ds : DScoped h) (hc : clone h x children keep = (h', .ok c)) (ops : List Op) (ho : OpsIn (NotBlock h h') ops)
+    (s : Nat) (hs1 : h.nN ≤ s) (hs2 : s < h'.nN) (hne : s ≠ c) :
+    ((mergeAttrs (run h' ops) c s true).node c).attrs = ((mergeAttrs h' c s true).node c).attrs ∧
+    recOf (mergeAttrs (run h' ops) c s true) c = recOf (mergeAttrs h' c s true) c := by
+  obtain ⟨c1, c2, _, _⟩ := clone_detached_new hc
+  obtain ⟨p1, p2⟩ := mergeAttrs_spec (run h' ops) c s hne
+  obtain ⟨q1, q2⟩ := mergeAttrs_spec h' c s hne
+  have bs := edit_original_preserves_copy sc hc ops ho
+  rw [p1, p2, q1, q2, (edit_original_preserves_copy_record sc ds hc ops ho).1 c c1 c2, bs.1 c c1 c2, bs.1 s hs1 hs2]
+  exact ⟨rfl, rfl⟩
+
+/-- The same for the copy `export_leaf()` hands out (every Section of the exported chain is a
+    `clone(children=False, keep_id=True)`, i.e. shares the dict of the Section it was copied from):
+    `export_leaf` makes no dict, no edit sequence applied to the export changes what the record of any
+    object that existed holds ... -/
+theorem edit_export_preserves_original_record {h h' : H} {x r : Nat} (ds : DScoped h)
+    (he : exportLeaf h x = (h', .ok r)) (ops : List Op) (ho : OpsIn (Sn h) ops) (a : Nat) (ha : a < h.nN) :
+    h'.dcell = h.dcell ∧ h'.nD = h.nD ∧ recOf (run h' ops) a = recOf h a := by
+  have b := edit_export_preserves_original he ops ho
+  have e : Ext h h' := by have := export_writes_only_new h x; rwa [he] at this
+  have d := dsame_exportLeaf h x
+  rw [he] at d
+  have hn : (run h' ops).node a = h'.node a := by rw [b.1 a ha, e.2.1 a ha]
+  have hm : (h'.node a).mattrs < h'.nD := by rw [e.2.1 a ha, d.nD]; exact ds.2 a
+  refine ⟨d.dcell, d.nD, ?_⟩
+  rw [recOf_run ops a hm hn]
+  unfold recOf
+  rw [e.2.1 a ha, d.dcell]
+
+/-- ... and no edit sequence applied to anything but the export changes what the record of any object of
+    the export holds. -/
+theorem edit_original_preserves_export_record {h h' : H} {x r : Nat} (sc : Scoped h) (ds : DScoped h)
+    (he : exportLeaf h x = (h', .ok r)) (ops : List Op) (ho : OpsIn (NotBlock h h') ops) (a : Nat)
+    (h1 : h.nN ≤ a) (h2 : a < h'.nN) : recOf (run h' ops) a = recOf h' a := by
+  have bs := edit_original_preserves_export sc he ops ho
+  have d := dsame_exportLeaf h x
+  rw [he] at d
+  exact recOf_run ops a ((d.frame.scoped ds).2 a) (bs.1 a h1 h2)
+
+/-- A Document with a Section "s" that has no definition / reference of its own (1) and a Section "tgt"
+    that has both (2); "s" is merged with "tgt" (`link` resolved): definition and reference are filled in
+    and noted in the record of "s". -/
+def hMerged : H := run empty
+  [.newObj .doc "" ["'me'", "'1'", "None", "None"] [],
+   .newObj .sec "s" ["'t'", "None", "None", "None"] [], .append 0 1,
+   .newObj .sec "tgt" ["'t'", "'D'", "'R'", "None"] [], .append 0 2,
+   .mergeAttrs 1 2 true]
+
+/-- The hypotheses are met by a store with a non-empty record, and the statements are not vacuous: the
+    store is `DScoped` and `Scoped`, "s" carries the filled-in values and its record holds them, the clone
+    of "s" is object 3 and holds the same address; an edit list on the copy that unmerges it and merges it
+    again (with the Section "tgt" of the original document, which is only read) is `OpsIn (Sn hMerged)`. -/
+example : DScoped hMerged ∧ Scoped hMerged ∧ (hMerged.node 1).attrs = ["'t'", "'D'", "'R'", "None"] ∧
+    recOf hMerged 1 = [(1, "'D'"), (2, "'R'")] ∧ (clone hMerged 1 true false).2 = .ok 3 ∧
+    ((clone hMerged 1 true false).1.node 3).mattrs = (hMerged.node 1).mattrs :=
+  ⟨run_empty_dscoped _, run_empty_scoped _, by decide, by decide, by decide, by decide⟩
+example : OpsIn (Sn hMerged) [.unmergeAttrs 3, .mergeAttrs 3 2 true, .setAttr 3 1 "'X'"] := by
+  intro op hop
+  simp only [List.mem_cons, List.mem_nil_iff, or_false] at hop
+  rcases hop with rfl | rfl | rfl <;> constructor <;> intro a ha <;>
+    simp [Op.objs, Op.lists] at ha <;> subst ha <;> simp only [Sn] <;> decide
+
+/-- The code as it is, on the witness: the copy of the merged Section is unmerged (`copy.clean()`): the
+    record of the original still holds both values, and cleaning the original afterwards takes both back. -/
+theorem unmerge_copy_then_original_witness :
+    let h1 := (clone hMerged 1 true false).1
+    let h2 := unmergeAttrs h1 3
+    recOf h1 3 = recOf hMerged 1 ∧ recOf h2 3 = [] ∧ (h2.node 3).attrs = ["'t'", "None", "None", "None"] ∧
+    recOf h2 1 = [(1, "'D'"), (2, "'R'")] ∧
+    ((unmergeAttrs h2 1).node 1).attrs = ["'t'", "None", "None", "None"] := by decide
+
+/-- Seeded change C11-G (`unmerge` ends with `self._merged_attrs.clear()`: a write INTO the dict that is
+    bound) violates the clause on the same witness: unmerging the COPY empties the record of the ORIGINAL,
+    which then keeps the definition and reference of "tgt" as if they were its own when it is cleaned. -/
+theorem unmerge_in_place_counterexample :
+    let h1 := (clone hMerged 1 true false).1
+    let h2 := unmergeAttrsInPlace h1 3
+    recOf h2 1 ≠ recOf h1 1 ∧ recOf h2 1 = [] ∧
+    ((unmergeAttrs h2 1).node 1).attrs = ["'t'", "'D'", "'R'", "None"] ∧
+    ((unmergeAttrs h2 1).node 1).attrs ≠ ((unmergeAttrs h1 1).node 1).attrs := by decide
+
+/-- A Document with a Section "s" without a definition (1) and a Section "tgt" with one (2); nothing is
+    merged yet. -/
+def hLate : H := run empty
+  [.newObj .doc "" ["'me'", "'1'", "None", "None"] [],
+   .newObj .sec "s" ["'t'", "None", "None", "None"] [], .append 0 1,
+   .newObj .sec "tgt" ["'t'", "'D'", "None", "None"] [], .append 0 2]
+
+/-- Seeded change C12-G (`merge` notes what it fills in by `self._merged_attrs[attr] = …`, item assignment
+    on the dict that is bound): the record is written AFTER the copy was made. "s" is cloned (3), the COPY
+    is merged with "tgt"; the ORIGINAL's record now holds the definition although nothing was merged into
+    it, and a definition 'D' the user then gives the original is taken away by its next `unmerge`. With the
+    code as it is (`mergeAttrs`) the record of the original stays empty and the definition stays. -/
+theorem merge_in_place_counterexample :
+    let h1 := (clone hLate 1 true false).1
+    let bad := setAttr (mergeAttrsInPlace h1 3 2) 1 defAttr "'D'"
+    let good := setAttr (mergeAttrs h1 3 2 true) 1 defAttr "'D'"
+    recOf h1 1 = [] ∧ recOf bad 1 = [(1, "'D'")] ∧ recOf good 1 = [] ∧ recOf good 3 = [(1, "'D'")] ∧
+    ((unmergeAttrs bad 1).node 1).attrs = ["'t'", "None", "None", "None"] ∧
+    ((unmergeAttrs good 1).node 1).attrs = ["'t'", "'D'", "None", "None"] := by decide
 
 end C11
